@@ -57,6 +57,7 @@ def core_check(prop, tier, seed, sd, t0):
     binp = vlib.build_harness(sd)
     total_runs = total_events = total_images = 0
     viols, known, samples, famstats = [], [], [], {}
+    strict = []
     driver_deaths = []
     for fam, n in fams:
         out, logs = vlib.drive(binp, sd, fam, n, seed, timeout=900 if tier == 'quick' else 3000)
@@ -72,6 +73,12 @@ def core_check(prop, tier, seed, sd, t0):
             for clause, line, run in res['viols']:
                 meta = runs.get(run, {})
                 scn = (meta.get('scenario') or {}).get('name', '?')
+                if clause.startswith('STRICT_'):
+                    # the real transition differs from BlugeCore's transition function: reported, never a verdict
+                    strict.append((clause, run))
+                    if len(strict) <= 5:
+                        log('note: model divergence %s in run %d (%s) at line %d' % (clause, run, scn, line))
+                    continue
                 if not matches(clause, spec['prefixes']):
                     log('note: run %d (%s) fails clause %s of another property at line %d' % (run, scn, clause, line))
                     continue
@@ -130,7 +137,11 @@ def core_check(prop, tier, seed, sd, t0):
                rule='executions of the real writer under seeded gate schedules (one per generated scenario); every execution is a distinct '
                     '(scenario, schedule) pair and is validated event by event by TLC against BlugeCore/BlugeTrace; clauses of this property: '
                     + ', '.join(spec['prefixes']),
-               exhaustive=False, known_findings=[k['key'] for k, _ in known][:5])
+               exhaustive=False, known_findings=[k['key'] for k, _ in known][:5],
+               model_divergences=len(strict),
+               model_divergence_rule='every logged batch / merge / persist-swap introduction is compared with what BlugeCore\'s pure transition functions '
+                                     '(AfterBatch, MergedRoot incl. the skipped flag, SwapRoot) compute from the previous logged root, the optimistic root of the batch, '
+                                     'the merge task and the grabbed snapshot; 0 means the model-checked transition functions predicted every real root exactly')
     vlib.write_evidence(prop, tier, seed, 'model_checking', cov, ASSUME_CORE, time.time() - t0, len(viols))
     log('%s %s: %d model states, %d executions (%d events, %d crash images) validated, %d violations, %.0fs'
         % (prop, tier, states, total_runs, total_events, total_images, len(viols), time.time() - t0))
